@@ -9,7 +9,7 @@ RULE = ("the operator read off the real ResidualGive / ResidualTake with one-hot
 
 def run(ctx):
     # C06d: "the line blocks the smoothers factorise inherit both properties" for the matrices the code-level smoother model stores
-    ctx.prove(extra_modules=["GMGProofs.Props.C06d"])
+    ctx.prove(extra_modules=["GMGProofs.Props.C06d", "GMGProofs.Props.C05b"])
     h = ctx.build_harness("h_ops")
     if ctx.tier == "quick":
         ctx.pipe([h, "matrix", "24", "7", "12"], "matrix")
